@@ -146,6 +146,23 @@ def difflimNu [LT K] [DecidableLT K] (abs : K → K) (f wavelength fno : K) : K 
 def difflimMtf [LT K] [DecidableLT K] (arccos sqrt abs : K → K) (pi f wavelength fno : K) : K :=
   difflimCore arccos sqrt pi (difflimNu abs f wavelength fno)
 
+/-- `otf.longexposure_otf(nu, Cn, z, f, lambdabar, h_z_by_r) = exp(−2π² h Cn² · z f^{5/3}/λ³ · ν^{5/3})` after the unit
+conversions `ν/10³`, `f/10³`, `λ/10⁶`; `rpow` is the real power, `5/3` its exponent -/
+def longExposureOtf (exp : K → K) (rpow : K → K → K) (pi nu Cn z f lambdabar h : K) : K :=
+  let nu' := nu / Num.ofInt 1000
+  let f' := f / Num.ofInt 1000
+  let lam := lambdabar / Num.ofInt 1000000
+  let power := Num.ofInt 5 / Num.ofInt 3
+  let const1 := -(pi * pi) * Num.ofInt 2 * h * (Cn * Cn)
+  let const2 := z * rpow f' power / (lam * lam * lam)
+  exp (const1 * const2 * rpow nu' power)
+
+/-- `otf.komogorov(r, r0) = 6.88 (r/r0)^{5/3}` -/
+def komogorov (rpow : K → K → K) (r r0 : K) : K := Num.ofFrac 172 25 * rpow (r / r0) (Num.ofInt 5 / Num.ofInt 3)
+
+/-- `otf.estimate_Cn(P, T, Ct) = (79 P / T²) Ct² 10⁻¹²` -/
+def estimateCn (P T Ct : K) : K := (Num.ofInt 79 * P / (T * T)) * (Ct * Ct) * Num.ofFrac 1 1000000000000
+
 end tfs
 
 /-! ## materialised arrays and the O(N²) DFT instance of `FOps` (driver) -/
